@@ -132,6 +132,9 @@ func vScanCheck(db *Nitro, c vCfgT, s *Snapshot, g *vSetModel, what string) {
 		vFail("NewIterator returned nil for an open snapshot")
 		return
 	}
+	if r := vBound("scanrate"); r > 0 {
+		it.SetRefreshRate(r) // scans must not depend on the refresh rate (Visitor / StoreToDisk use 10000)
+	}
 	cnt := 0
 	last := -1
 	for it.SeekFirst(); it.Valid(); it.Next() {
